@@ -623,7 +623,7 @@ pub fn run_pipeline_check(check: &str, tier: Tier, seed: u64) -> i32 {
 
 /// `sim replay <file>`: exit 1 + "VIOLATION ... class=<class>" if the file reproduces its violation.
 pub fn replay(path: &Path) -> i32 {
-    crate::hook::ensure_installed();
+    crate::hook::warm_up();
     let file = ReplayFile::read(path);
     if !file.extra["history_differential"].is_null() {
         let tier = if file.extra["history_differential"]["tier"].as_str() == Some("thorough") { Tier::Thorough } else { Tier::Quick };
